@@ -8,6 +8,11 @@
 #include <sys/wait.h>
 #include <signal.h>
 
+#ifdef HWLOC_VERIF
+extern void (*hwloc_verif_phase_cb)(struct hwloc_topology *topology, int phase);
+static void phase_cb(struct hwloc_topology *t, int phase) { hwv_dump_raw(stdout, t, phase); }
+#endif
+
 int main(void)
 {
   char *line = NULL; size_t cap = 0;
@@ -20,6 +25,14 @@ int main(void)
       if (t) hwloc_topology_destroy(t);
       loaded = 0;
       printf("new rc=%d\n", hwloc_topology_init(&t));
+    } else if (!strncmp(line, "phases ", 7)) {
+      /* phases 1|0 : print the raw tree at the phase boundaries of hwloc_discover (needs the HWLOC_VERIF hook) */
+#ifdef HWLOC_VERIF
+      hwloc_verif_phase_cb = atoi(line + 7) ? phase_cb : NULL;
+      printf("phases rc=0\n");
+#else
+      printf("phases rc=-1\n");
+#endif
     } else if (!strncmp(line, "echo ", 5)) {
       printf("%s\n", line);
     } else if (!strcmp(line, "load")) {
